@@ -175,6 +175,55 @@ def run(chk):
                 outs, bad = coexec.run_all(m, "c10", r, states, lay)
                 if outs and outs[0]["stop"].startswith("done") and outs[0]["mem"][0] != k["expect"]["v"]:
                     chk.fail(k["signature"], k["what_fails"], {"source": k["exemplar"], "stored": outs[0]["mem"][0], "C": k["expect"]["v"]})
+    # ---- complete pairwise sweep: `a op1 b op2 c` for every ordered pair of binary operators (and a
+    #      unary operator in front), with operand triples on which the two groupings differ ----
+    def num(v):
+        return ("num", v, str(v), "idecimal:" + hx(str(v)))
+    triples = [(1, 2, 3), (5, 2, 4), (7, 3, 2), (0, 1, 0), (6, 1, 1), (12, 5, 9), (2, 7, 7)]
+    sweep = []
+    for (o1, r1, p1) in BIN:
+        for (o2, r2, p2) in BIN:
+            for (a, b, c) in triples:
+                # the tree C's grammar gives to the token string `a o1 b o2 c`
+                if p1 >= p2:
+                    tree = ("bin", o2, ("bin", o1, num(a), num(b)), num(c))
+                else:
+                    tree = ("bin", o1, num(a), ("bin", o2, num(b), num(c)))
+                sweep.append(("%d %s %d %s %d" % (a, o1, b, o2, c), tree, ["n%d" % a, "o" + r1, "n%d" % b, "o" + r2, "n%d" % c]))
+    for (u, ru) in UN:
+        for (o1, r1, p1) in BIN:
+            for (a, b) in [(1, 2), (0, 3), (5, 5), (2, 1)]:
+                tree = ("bin", o1, ("un", u, num(a)), num(b))
+                sweep.append(("%s%d %s %d" % (u, a, o1, b), tree, ["o" + ru, "n%d" % a, "o" + r1, "n%d" % b]))
+    for (text, tree, tk) in sweep:
+        try:
+            want = ceval(tree)
+        except Undefined:
+            continue
+        src = "const short k = %s;\nvoid main() {}\n" % text
+        r = h.compile(src, 0)
+        chk.case(key=("sweep", text), nontrivial=True)
+        chk.count("pairwise_sweep")
+        got = None
+        if r["status"] == "ok":
+            got = [v for v in r["vars"] if unhx(v["name"]) == "k"][0]["def"][1][1]
+        ma = m.req("calc " + " ".join(tk))
+        real = "ok %d" % got if got is not None else ("err" if r["status"] == "err" else "panic")
+        if real != ma:
+            chk.tie_broken("constant calculator: model and code disagree", {"expr": text, "real": real, "model": ma})
+        if got is not None and got != want:
+            chk.fail("constant-value", "%s evaluates to %d, C says %d" % (text, got, want), {"source": src, "value": got, "C": want})
+        # the same token string as a statement (the `pratt` table and the folding of the generator)
+        if 0 <= want <= 255 and "/" not in text and "*" not in text and not any(t in text for t in ("~", "-")):
+            src2 = "unsigned char v;\nvoid main() { v = %s; }\n" % text
+            r2 = h.compile(src2, 1)
+            if r2["status"] == "ok":
+                states, lay = coexec.init_states(r2, 1, seed=1)
+                outs, bad = coexec.run_all(m, "c10", r2, states, lay)
+                chk.count("pairwise_sweep_statements")
+                if outs and outs[0]["stop"].startswith("done") and outs[0]["mem"][0] != want:
+                    chk.fail("folded-constant-value", "`v = %s;` stores %d, C says %d" % (text, outs[0]["mem"][0], want), {"source": src2})
+    chk.coverage["exhaustive_operator_pairs"] = True
     n = chk.scale(1200, 20000)
     for i in range(n):
         e = rand_expr(rng, rng.randint(1, 4))
